@@ -158,15 +158,16 @@ struct Clean<'a> {
     edits: Vec<Edit>,
     err: Option<String>,
     derive_override: Option<String>,
+    keeps_default: bool,
     cnt: &'a mut Counters,
 }
 
 const DROP_ATTRS: &[&str] = &[
     "allow", "inline", "must_use", "repr", "warn", "deny", "expect", "strum", "keyword", "kw",
-    "kwm", "non_exhaustive", "serde", "default", "kw_map_name", "kwm_map_name", "subset",
+    "kwm", "non_exhaustive", "serde", "kw_map_name", "kwm_map_name", "subset",
 ];
 const KEEP_DERIVES: &[&str] = &[
-    "Clone", "Copy", "PartialEq", "Eq", "PartialOrd", "Ord", "Debug",
+    "Clone", "Copy", "PartialEq", "Eq", "PartialOrd", "Ord", "Debug", "Default",
 ];
 
 impl<'a> Clean<'a> {
@@ -236,6 +237,13 @@ impl<'a> Clean<'a> {
                     }
                 }
                 "doc" => {}
+                "default" => {
+                    // `#[default]` variant marker: only meaningful while Default is still derived
+                    if !self.keeps_default {
+                        self.cnt.bump("R1_attr");
+                        self.del(br(a));
+                    }
+                }
                 "derive" => {
                     self.cnt.bump("R1_derive");
                     let list = if let Some(d) = &self.derive_override {
@@ -256,6 +264,7 @@ impl<'a> Clean<'a> {
                         }
                         keep.join(", ")
                     };
+                    self.keeps_default = list.split(',').any(|x| x.trim() == "Default");
                     let r = br(a);
                     let rep = if list.is_empty() { String::new() } else { format!("#[derive({list})]") };
                     self.edits.push(Edit { start: r.start, end: r.end, rep });
@@ -723,6 +732,54 @@ fn r4_pass(mut text: String, is_method: bool, result_methods: &HashSet<String>, 
 }
 
 // ------------------------------------------------------------------------------------------
+// R10: `mut self` receivers (unsupported by Verus): `fn f(mut self, ..) { B }` becomes
+//      `fn f(self, ..) { let mut self_ = self; B[self := self_] }` — a pure alpha-renaming
+// ------------------------------------------------------------------------------------------
+fn collect_self_idents(ts: proc_macro2::TokenStream, out: &mut Vec<Range<usize>>) {
+    for t in ts {
+        match t {
+            proc_macro2::TokenTree::Ident(i) if i == "self" => out.push(i.span().byte_range()),
+            proc_macro2::TokenTree::Group(g) => collect_self_idents(g.stream(), out),
+            _ => {}
+        }
+    }
+}
+
+fn mutself_pass(text: String, is_method: bool, cnt: &mut Counters) -> Result<String, String> {
+    if !is_method {
+        return Ok(text);
+    }
+    let ast: syn::ImplItemFn = syn::parse_str(&text).map_err(|e| format!("reparse (R10): {e}"))?;
+    let Some(syn::FnArg::Receiver(rc)) = ast.sig.inputs.first() else { return Ok(text) };
+    if rc.reference.is_some() || rc.mutability.is_none() {
+        return Ok(text);
+    }
+    let mut edits = vec![];
+    let m = br(&rc.mutability);
+    edits.push(Edit { start: m.start, end: eat_ws(&text, m.end), rep: String::new() });
+    let open = br(&ast.block).start;
+    edits.push(Edit { start: open + 1, end: open + 1, rep: "\n        let mut self_ = self;".into() });
+    let mut ids = vec![];
+    use quote::ToTokens;
+    let _ = ast.block.to_token_stream();
+    let body_ts: proc_macro2::TokenStream = ast.block.to_token_stream();
+    collect_self_idents(body_ts, &mut ids);
+    for r in ids {
+        edits.push(Edit { start: r.start, end: r.end, rep: "self_".into() });
+    }
+    cnt.bump("R10_mut_self");
+    Ok(apply_edits(&text, edits))
+}
+
+fn eat_ws(text: &str, mut i: usize) -> usize {
+    let b = text.as_bytes();
+    while i < b.len() && (b[i] as char).is_whitespace() {
+        i += 1;
+    }
+    i
+}
+
+// ------------------------------------------------------------------------------------------
 // pass 3: splices (R7)
 // ------------------------------------------------------------------------------------------
 #[derive(Default)]
@@ -853,7 +910,7 @@ impl<'a> Ctx<'a> {
 
     /// pass 1 on a standalone item text
     fn clean(&mut self, text: &str, kind: ItemKind, derive_override: Option<String>, make_pub: bool) -> Result<String, String> {
-        let mut c = Clean { cfg: self.cfg, text, edits: vec![], err: None, derive_override, cnt: &mut self.cnt };
+        let mut c = Clean { cfg: self.cfg, text, edits: vec![], err: None, derive_override, keeps_default: false, cnt: &mut self.cnt };
         match kind {
             ItemKind::Method => {
                 let ast: syn::ImplItemFn = syn::parse_str(text).map_err(|e| format!("reparse: {e}"))?;
@@ -996,6 +1053,7 @@ impl<'a> Ctx<'a> {
         let text0 = src.text[r].to_string();
         // pass 1
         let text1 = self.clean(&text0, kind, None, !in_trait_impl && !fs.nopub)?;
+        let text1 = mutself_pass(text1, is_method, &mut self.cnt)?;
         // pass 2 (R4)
         let text2 = r4_pass(text1, is_method, &fs.r4result, &mut self.cnt)?;
         // pass 3 (R7)
@@ -1178,14 +1236,71 @@ impl<'a> Gen<'a> {
         }
     }
 
+
+    /// resolve //@if <cfg-pred> / //@iffield <file> <Struct> <field> / //@else / //@endif (anywhere, also
+    /// inside //@fn blocks) before directives are interpreted
+    fn preprocess<'t>(&mut self, lines: &[&'t str]) -> Result<Vec<&'t str>, String> {
+        let mut out = Vec::new();
+        let mut stack: Vec<bool> = vec![];
+        for line in lines {
+            let t = line.trim_start();
+            if let Some(d) = t.strip_prefix("//@") {
+                let parts: Vec<&str> = d.split_whitespace().collect();
+                match parts.first().copied().unwrap_or("") {
+                    "if" => {
+                        let v = self.ctx.cfg.eval_tokens(parts[1..].join(" ").parse().map_err(|_| "bad //@if")?)?;
+                        stack.push(v);
+                        continue;
+                    }
+                    "iffield" => {
+                        let (f, st, fld) = (parts.get(1).ok_or("//@iffield file struct field")?, parts.get(2).ok_or("//@iffield")?, parts.get(3).ok_or("//@iffield")?);
+                        self.ctx.load(f)?;
+                        let mut has = false;
+                        for it in &self.ctx.sources[*f].ast.items {
+                            if let syn::Item::Struct(sd) = it {
+                                if sd.ident == st {
+                                    for fd in &sd.fields {
+                                        if fd.ident.as_ref().map(|i| i == fld).unwrap_or(false) && self.ctx.attrs_on(&fd.attrs)? {
+                                            has = true;
+                                        }
+                                    }
+                                }
+                            }
+                        }
+                        stack.push(has);
+                        continue;
+                    }
+                    "else" => {
+                        let v = stack.pop().ok_or("//@else without //@if")?;
+                        stack.push(!v);
+                        continue;
+                    }
+                    "endif" => {
+                        stack.pop().ok_or("//@endif without //@if")?;
+                        continue;
+                    }
+                    _ => {}
+                }
+            }
+            if stack.iter().all(|b| *b) {
+                out.push(*line);
+            }
+        }
+        if !stack.is_empty() {
+            return Err("unterminated //@if".into());
+        }
+        Ok(out)
+    }
+
     fn process(&mut self, path: &str, depth: usize) -> Result<(), String> {
         if depth > 8 {
             return Err("include depth".into());
         }
         let text = std::fs::read_to_string(path).map_err(|e| format!("cannot read template {path}: {e}"))?;
-        let lines: Vec<&str> = text.lines().collect();
+        let raw_lines: Vec<&str> = text.lines().collect();
+        let lines: Vec<&str> = self.preprocess(&raw_lines)?;
         let mut i = 0usize;
-        let mut skip_stack: Vec<bool> = vec![]; // true = currently emitting
+        let skip_stack: Vec<bool> = vec![]; // conditionals are resolved by preprocess()
         while i < lines.len() {
             let line = lines[i];
             let t = line.trim_start();
@@ -1194,17 +1309,6 @@ impl<'a> Gen<'a> {
                 let parts: Vec<&str> = d.split_whitespace().collect();
                 let cmd = parts.first().copied().unwrap_or("");
                 match cmd {
-                    "if" => {
-                        let v = self.ctx.cfg.eval_tokens(parts[1..].join(" ").parse().map_err(|_| "bad //@if")?)?;
-                        skip_stack.push(v);
-                    }
-                    "else" => {
-                        let v = skip_stack.pop().ok_or("//@else without //@if")?;
-                        skip_stack.push(!v);
-                    }
-                    "endif" => {
-                        skip_stack.pop().ok_or("//@endif without //@if")?;
-                    }
                     _ if !emitting => {
                         // skip whole fn blocks when not emitting
                         if cmd == "fn" {
